@@ -78,6 +78,9 @@ CORPUS = [
     ([("r0", ("cat", [("lit", "x", False), ("opt", ("prose",))]), None)], "x", 0),             # F13
     ([("r0", ("cat", [("lit", "x", False), ("rep", 0, None, ("prose",))]), None)], "x", 0),    # F13
     ([("r0", ("rep", 2, 3, ("lit", "a", False)), None)], "aaaa", 0),
+    # the longest match is reached only through short steps that fall behind a long step first
+    ([("r0", ("rep", 0, None, ("alt", [("lit", "aaa", False), ("lit", "a", False), ("lit", "ab", False)], False)), None)], "aaab", 0),
+    ([("r0", ("rep", 0, None, ("alt", [("lit", "abc", False), ("lit", "a", False), ("lit", "b", False), ("lit", "cd", False)], False)), None)], "abcd", 0),
     ([("r0", ("cat", [("rep", 0, None, ("lit", "a", False)), ("lit", "a", False)]), None)], "aaa", 0),
     ([("r0", ("rep", 0, None, ("opt", ("lit", "a", False))), None)], "aa", 0),
 ]
